@@ -1091,6 +1091,14 @@ def run(ctx: Ctx):
         ctx.sample(dict(text=t, result=rr))
     for c, o in vpairs[:1]:
         ctx.sample(dict(steps=c["keys"], validate=o["validate"]))
+    # core.finish prints at most five distinct signatures: interleave the clauses so that they are five different ones
+    seen, order = {}, []
+    for v in ctx.violations:
+        key = json.dumps(v.sig, sort_keys=True)
+        if key not in seen:
+            seen[key] = len([1 for k in order if k[1] == v.clause])
+            order.append((key, v.clause))
+    ctx.violations.sort(key=lambda v: seen[json.dumps(v.sig, sort_keys=True)])
     (ctx.build / "broken.json").write_text(json.dumps([dict(kind=b.kind, name=b.name, detail=b.detail, case=b.case)
                                                        for b in ctx.broken], indent=1, default=str))
     (ctx.build / "violations.json").write_text(json.dumps([dict(sig=v.sig, what=v.what) for v in ctx.violations], indent=1))
@@ -1188,23 +1196,29 @@ META = dict(
     level_text=(
         "Coq theorems, for ALL settings trees, keys and values, over an executable model of _get_obj_att / Processor.has / "
         "get / set (objects with declared properties, setter guards and an open-__dict__ flag, dicts, Arguments refusing "
-        "unknown names, model groups resolving by model name): set-then-get, frame (shape and every other key unchanged) and "
-        "rejection of unconfirmed keys are each stated in full, refuted by proved witnesses where the code breaks them "
-        "(misspelt last component on an open object creates an attribute; truncated key replaces an object; dict items and "
-        "shadowed argument names do not read back) and proved in their strongest true restriction, with the exact condition "
-        "under which the defect happens; validate_steps rejects an undeclared / disabled-model key at any position of the "
-        "step list; eval_entry round trip on scalar literals. The model is tied to the code by evaluating it inside Coq "
-        "against the real Processor on full before/after settings snapshots (all fields of the 4 detector types, every "
-        "group/model/argument/flag, vars() of every object) for valid, misspelt, truncated and extended keys, against the "
-        "real eval_entry on generated texts and the real Observation.validate_steps; the implementation's observations are "
-        "judged inside Coq against the specification. That the implementation behaves like the model is established by this "
-        "correspondence, i.e. by testing."),
+        "unknown names, model groups resolving by model name): set-then-get, frame (an accepted assignment addressed an "
+        "existing settable setting and every key that does not extend it reads as before; nothing appears or disappears), "
+        "rejection of every key that has() does not confirm — all three proved in full after the repairs of C08-F7a/b/c, "
+        "C08-get-dict, C08-get-shadowed; derived processors (the copy a sweep, a calibration or Processor.replace assigns "
+        "on): under the copy policy regenerated from Processor.__deepcopy__ / ModelGroup.__deepcopy__ / the four copying "
+        "entry points no object is shared and the source keeps its whole settings tree; validate_steps rejects an "
+        "undeclared / disabled-model key at any position and accepts every admitted key, the enabled flag included "
+        "(C08-enabled-sweep repaired; accepting non-settings is still open and refuted by a proved witness); eval_entry "
+        "round trip for all integers, mantissa-e-exponent decimals, booleans, None and bare words. The model is tied to "
+        "the code by a fail-closed translator (copy policy) and by evaluating it inside Coq against the real Processor on "
+        "full before/after settings snapshots (all fields of the 4 detector types, every group/model/argument/flag, "
+        "vars() of every object) for valid, misspelt, truncated and extended keys — on the processor itself and on copies "
+        "derived through five real entry points, with source, sibling copy, later copy and object identities compared — "
+        "against the real eval_entry on generated texts and the real Observation.validate_steps; the implementation's "
+        "observations are judged inside Coq against the specification. That the implementation behaves like the model is "
+        "established by this correspondence, i.e. by testing."),
     level_note=(
-        "Trusted: Coq kernel + vm_compute; the correspondence harness and driver (introspection of the objects into the "
-        "settings tree, hand table of setter range guards); Python attribute-lookup semantics as modelled. Assumes public key "
-        "components (no private aliases, no list indices), scalar leaves without attributes, the APD coupled triple not compared, "
-        "the literal subset stated in the evidence. The literal round trip is proved for scalar literals only; lists/tuples are "
-        "covered by correspondence."),
-    technique="Coq proof over a settings-tree model + in-Coq correspondence/spec evaluation against Processor, eval_entry, validate_steps",
+        "Trusted: Coq kernel + vm_compute; translator/c08.py (+ the recognisers of translator/c06.py); the correspondence "
+        "harness and driver (introspection of the objects into the settings tree, hand table of setter range guards); "
+        "Python attribute-lookup semantics and copy.deepcopy as modelled. Assumes public key components (no private "
+        "aliases, no list indices), scalar leaves without attributes, the APD coupled triple not compared, the literal "
+        "subset stated in the evidence. Quoted strings, lists and tuples of literals are covered by correspondence only."),
+    technique="Coq proof over a settings-tree model + copy-policy translator + in-Coq correspondence/spec evaluation against "
+              "Processor (and derived processors), eval_entry, validate_steps",
     design_ref="DESIGN.md section 6, C08",
 )
